@@ -10,6 +10,7 @@ use delaunay::core::util::verif_failpoints as fp;
 use delaunay::geometry::kernel::{FastKernel, RobustKernel};
 use serde_json::{json, Value};
 use std::num::NonZeroUsize;
+use uuid::Uuid;
 
 const GP2: [[i64; 2]; 6] = [[0, 0], [7, 1], [3, 8], [9, 6], [1, 5], [6, 4]];
 const GP3: [[i64; 3]; 6] = [[0, 0, 0], [5, 1, 0], [1, 6, 1], [2, 2, 7], [4, 5, 5], [6, 3, 2]];
@@ -290,6 +291,176 @@ pub fn drive_removetxn(cx: &mut Ctx, hist: &str) {
                     (2, _) => removetxn_case::<RobustKernel<f64>, 2>(cx, &script, &GP2.iter().map(|p| p.to_vec()).collect::<Vec<_>>(), &[4, 3]),
                     (_, 0) => removetxn_case::<FastKernel<f64>, 3>(cx, &script, &GP3.iter().map(|p| p.to_vec()).collect::<Vec<_>>(), &[3, 3, 2]),
                     (_, _) => removetxn_case::<RobustKernel<f64>, 3>(cx, &script, &GP3.iter().map(|p| p.to_vec()).collect::<Vec<_>>(), &[3, 3, 2]),
+                }
+            }
+        }
+    }
+}
+
+// ---------------------------------------------------------------------------------------
+// flip-application transaction (spec/FlipTxn.tla)
+// ---------------------------------------------------------------------------------------
+fn cell_sets<K: Kern<D>, const D: usize>(dt: &Dt<K, D>) -> std::collections::BTreeSet<Vec<Uuid>> {
+    dt.cells()
+        .map(|(_, c)| {
+            let mut vs: Vec<Uuid> = c.vertices().iter().filter_map(|&vk| dt.tds().get_vertex_by_key(vk).map(|v| v.uuid())).collect();
+            vs.sort();
+            vs
+        })
+        .collect()
+}
+
+fn fliptxn_case<K: Kern<D>, const D: usize>(cx: &mut Ctx, script: &Value, base_pts: &[Vec<i64>], inner: &[i64]) {
+    use delaunay::core::algorithms::locate::{locate, LocateResult};
+    use delaunay::core::facet::FacetHandle;
+    use delaunay::core::triangulation_data_structure::CellKey;
+    use delaunay::triangulation::flips::BistellarFlips;
+    let kind = script["cfg"]["kind"].as_str().unwrap().to_string();
+    let choices: Vec<String> = script["choices"].as_array().unwrap().iter().map(|x| x.as_str().unwrap().to_string()).collect();
+    let bad = choices.first().is_some_and(|c| c == "bad");
+    let input = cx.inputs(base_pts, false);
+    let vs: Vec<_> = input.iter().map(|v| v.vertex::<D>(0)).collect();
+    let Ok(mut dt) = Dt::<K, D>::with_topology_guarantee(&K::default(), &vs, GUARANTEES[1]) else { return };
+    dt.set_delaunay_repair_policy(DelaunayRepairPolicy::Never);
+    let newv = VIn::lattice(cx.fresh_uuid(), inner.to_vec(), Some(9));
+    let vert = newv.vertex::<D>(0);
+    let Ok(LocateResult::InsideCell(ck)) = locate(dt.tds(), &K::default(), vert.point(), None) else { return };
+    // the handle of the call
+    enum H<const D: usize> {
+        Ins(CellKey),
+        K2(FacetHandle),
+        Rem(delaunay::core::triangulation_data_structure::VertexKey),
+    }
+    let mut watch = newv.uuid; // k1ins: the new vertex; k1rem: the target vertex
+    let h: H<D> = match kind.as_str() {
+        "k1ins" => {
+            if bad {
+                // a cell key that is no longer live: the key of a cell a probe flip removed (same slot map layout)
+                let mut probe = dt.clone();
+                let pv = VIn::lattice(cx.fresh_uuid(), inner.to_vec(), Some(8)).vertex::<D>(0);
+                if probe.flip_k1_insert(ck, pv).is_err() {
+                    return;
+                }
+                let Some((pk, _)) = find_vertex(&probe, pv.uuid()) else { return };
+                if probe.flip_k1_remove(pk).is_err() {
+                    return;
+                }
+                dt = probe; // same content as before, `ck` now names a removed cell
+                if dt.tds().get_cell(ck).is_some() {
+                    return;
+                }
+            }
+            H::Ins(ck)
+        }
+        "k2" => {
+            let mut found = None;
+            'o: for (c, cell) in dt.cells() {
+                for i in 0..=D {
+                    let hull = cell.neighbors().is_none_or(|n| n.get(i).is_none_or(|x| x.is_none()));
+                    if bad {
+                        if hull {
+                            found = Some(FacetHandle::new(c, i as u8));
+                            break 'o;
+                        }
+                    } else if !hull {
+                        let mut probe = dt.clone();
+                        if probe.flip_k2(FacetHandle::new(c, i as u8)).is_ok() && probe.as_triangulation().is_valid().is_ok() {
+                            found = Some(FacetHandle::new(c, i as u8));
+                            break 'o;
+                        }
+                    }
+                }
+            }
+            let Some(f) = found else { return };
+            H::K2(f)
+        }
+        _ => {
+            if bad {
+                // a vertex whose star is not a simplex
+                let mut best = None;
+                for (vk, v) in dt.vertices() {
+                    let deg = dt.cells().filter(|(_, c)| c.vertices().contains(&vk)).count();
+                    if deg > D + 1 && best.is_none() {
+                        best = Some((vk, v.uuid()));
+                    }
+                }
+                let Some((vk, u)) = best else { return };
+                watch = u;
+                H::Rem(vk)
+            } else {
+                if dt.flip_k1_insert(ck, vert).is_err() {
+                    return;
+                }
+                let Some((vk, _)) = find_vertex(&dt, newv.uuid) else { return };
+                H::Rem(vk)
+            }
+        }
+    };
+    fp::arm("verif.none", 1);
+    for (c, site) in choices.iter().skip(1).zip(["flip.after_insert_cells", "flip.after_wire", "flip.after_remove_cells"]) {
+        if c == "fail" {
+            fp::arm_also(site, 1, false);
+            break;
+        }
+    }
+    let before = cx.tr.project(&dt);
+    let cells0 = cell_sets(&dt);
+    let gen0 = dt.tds().generation();
+    let hull = delaunay::geometry::algorithms::convex_hull::ConvexHull::from_triangulation(dt.as_triangulation()).ok();
+    fp::start_log();
+    let r = cx.tr.guard("explicit flip (transaction script)", || {
+        let res = match &h {
+            H::Ins(c) => dt.flip_k1_insert(*c, vert),
+            H::K2(f) => dt.flip_k2(*f),
+            H::Rem(vk) => dt.flip_k1_remove(*vk),
+        };
+        if res.is_ok() { "Ok".to_string() } else { "Err".to_string() }
+    });
+    let log = fp::take_log();
+    let _ = fp::disarm_all();
+    let sites: Vec<&str> = log.iter().copied().filter(|s| s.starts_with("flip.")).collect();
+    let args = json!({"D": D, "kernel": K::NAME, "script": script});
+    match r {
+        Guarded::Done(kindr) => {
+            let after = cx.tr.project(&dt);
+            let cells1 = cell_sets(&dt);
+            let changed = before["verts"] != after["verts"] || before["cells"] != after["cells"];
+            let watch_in = find_vertex(&dt, watch).is_some();
+            let old_in = cells0.is_subset(&cells1);
+            let new_in = cells1.difference(&cells0).next().is_some();
+            let stale = hull.as_ref().map(|hl| !hl.is_valid_for_triangulation(dt.as_triangulation()));
+            cx.tr.emit("FTxn", 0, args,
+                json!({"kind": kindr, "sites": sites, "changed": changed, "watch_in": watch_in, "old_in": old_in, "new_in": new_in,
+                       "gen_changed": dt.tds().generation() != gen0, "hull_stale": stale,
+                       "valid": dt.as_triangulation().is_valid().is_ok()}), None, false);
+        }
+        Guarded::Panicked(msg) => {
+            cx.tr.emit("FTxn", 0, args, json!({"kind": "Panic", "msg": msg}), None, true);
+        }
+    }
+}
+
+pub fn drive_fliptxn(cx: &mut Ctx, hist: &str) {
+    let text = std::fs::read_to_string(hist).expect("cannot read scripts");
+    for line in text.lines() {
+        if line.trim().is_empty() {
+            continue;
+        }
+        let script: Value = serde_json::from_str(line).expect("bad script line");
+        let choices: Vec<&str> = script["choices"].as_array().unwrap().iter().map(|x| x.as_str().unwrap()).collect();
+        for d in 2..=3usize {
+            for k in 0..2usize {
+                if !cx.mine() {
+                    continue;
+                }
+                cx.tr.tag = format!("C03 fliptxn D={d} {} {:?}", script["cfg"]["kind"].as_str().unwrap(), choices);
+                let g2: Vec<Vec<i64>> = GP2.iter().map(|p| p.to_vec()).collect();
+                let g3: Vec<Vec<i64>> = GP3.iter().map(|p| p.to_vec()).collect();
+                match (d, k) {
+                    (2, 0) => fliptxn_case::<FastKernel<f64>, 2>(cx, &script, &g2, &[4, 3]),
+                    (2, _) => fliptxn_case::<RobustKernel<f64>, 2>(cx, &script, &g2, &[4, 3]),
+                    (_, 0) => fliptxn_case::<FastKernel<f64>, 3>(cx, &script, &g3, &[3, 3, 2]),
+                    (_, _) => fliptxn_case::<RobustKernel<f64>, 3>(cx, &script, &g3, &[3, 3, 2]),
                 }
             }
         }
